@@ -86,7 +86,7 @@ func (c *Ctx) onlyFromTeardownAfterClear(fn *ssa.Function) (bool, string) {
 	}
 	for _, cs := range sites {
 		par := cs.Parent()
-		if par != c.A.Teardown {
+		if par != c.A.TeardownCore {
 			// allow a chain: parent itself only from teardown after clear
 			if par == fn {
 				continue
@@ -210,7 +210,7 @@ func runC03(c *Ctx) {
 		v := recvValue(op)
 		used := valueUsed(v)
 		ok, why := c.onlyFromTeardownAfterClear(fn)
-		if fn == a.Teardown {
+		if fn == a.TeardownCore {
 			ok = SetDominates(fn, func(in ssa.Instruction) bool { return c.isFlagStore(in, false) }, op.In)
 			why = "in the teardown itself after connected=false"
 		}
@@ -325,9 +325,13 @@ func runC03(c *Ctx) {
 				continue
 			}
 			nDis++
-			ok := fn == a.Teardown && kindName(e.Site) == "call" &&
-				SetDominates(fn, func(in ssa.Instruction) bool { return c.isWGCall(in, a.WG, "Wait") && kindName(in) == "call" }, e.Site)
-			r.Add("R5", "disconnected:"+c.FuncKey(fn), c.InstrPos(e.Site), c.FuncKey(fn), "DISCONNECTED dispatched in the teardown only after Wait on the connection WaitGroup", ok, kindName(e.Site)+" in "+c.FuncKey(fn))
+			ok := fn == a.Teardown && kindName(e.Site) == "call"
+			why := kindName(e.Site) + " in " + c.FuncKey(fn)
+			if ok {
+				ok, why = c.coreDominatesEvent(func(in ssa.Instruction) bool { return c.isWGCall(in, a.WG, "Wait") && kindName(in) == "call" }, e.Site)
+				why = "Wait " + why
+			}
+			r.Add("R5", "disconnected:"+c.FuncKey(fn), c.InstrPos(e.Site), c.FuncKey(fn), "DISCONNECTED dispatched in the teardown only after Wait on the connection WaitGroup", ok, why)
 		}
 	}
 	r.Floor("R5", "dispatch of DISCONNECTED", nDis, 1)
@@ -336,7 +340,7 @@ func runC03(c *Ctx) {
 		bad := ""
 		nDone := 0
 		funcInstrs(consumer, func(in ssa.Instruction) {
-			if c.isWGCall(in, a.WG, "Done") {
+			if c.isDoneLike(in) {
 				nDone++
 				if _, d := in.(*ssa.Defer); d {
 					return
